@@ -96,6 +96,9 @@ def seeded(names, tier):
     for d in dirs:
         sid = os.path.basename(d)
         meta = json.load(open(os.path.join(d, "meta.json")))
+        if meta.get("out_of_scope"):
+            print(f"{'OUT-OF-SCOPE':14s} {sid}: {meta['out_of_scope'][:160]}")
+            continue
         props = [p for p, c in meta.get("checks", {}).items() if c.get("verdict") == "CAUGHT"] or [meta["property"]]
         for prop in props:
             name, _, status, info, dt = _run_one(os.path.join(d, "patch.diff"), sid, prop, tier, os.environ.get("VERIF_MUTANT_RUNS"))
